@@ -1053,11 +1053,11 @@ fn blocked_case(rep: &mut Report, prop: &str, args: &Args, cs: u64) {
     // "an unbounded queue accepts every metric": backlogs beyond 2^16 (a third of the unbounded cases) and, once per
     // run with --huge-first, beyond 2^20 pile up behind the blocked sink - hidden ceilings sit at such round numbers
     static HUGE_DONE: std::sync::atomic::AtomicBool = std::sync::atomic::AtomicBool::new(false);
-    let cap = if args.flag("huge-first") && !HUGE_DONE.load(Ordering::SeqCst) { None } else { cap };
+    let cap = if (args.flag("huge-first") && !HUGE_DONE.load(Ordering::SeqCst)) || args.flag("backlogs") { None } else { cap };
     let backlog_total = if cap.is_none() {
         if args.flag("huge-first") && !HUGE_DONE.swap(true, Ordering::SeqCst) {
             (1usize << 20) + 60_000
-        } else if rng.chance(1, 3) {
+        } else if rng.chance(1, 3) || args.flag("backlogs") {
             70_000
         } else {
             0
@@ -1234,6 +1234,38 @@ fn blocked_case(rep: &mut Report, prop: &str, args: &Args, cs: u64) {
     // everything accepted is delivered, then release
     let total = ok_n as usize + 1;
     let r = await_log(&sh, |st| st.n_exit >= total);
+    if r.is_ok() && prop == "C08" {
+        // ... one at a time, and every producer's metrics in the order in which that producer emitted them
+        let log = sh.log();
+        let mut inside = 0i64;
+        let mut last_k: HashMap<usize, i64> = HashMap::new();
+        let mut bad: Option<(&'static str, &'static str, String)> = None;
+        for e in &log {
+            match e {
+                Ev::Enter { metric, .. } => {
+                    inside += 1;
+                    if inside > 1 && bad.is_none() {
+                        bad = Some(("R3", "concurrent-delivery", format!("the wrapped sink was entered for {:?} while another emit of it was still in progress", cvh::json::clip(metric, 60))));
+                    }
+                    if let Some(rest) = metric.strip_prefix("b.p") {
+                        let mut it = rest.split(".n");
+                        if let (Some(p), Some(k)) = (it.next().and_then(|x| x.parse::<usize>().ok()), it.next().map(|x| x.chars().take_while(|c| c.is_ascii_digit()).collect::<String>()).and_then(|x| x.parse::<i64>().ok())) {
+                            let prev = last_k.insert(p, k).unwrap_or(-1);
+                            if k <= prev && bad.is_none() {
+                                bad = Some(("R2", "out-of-order", format!("producer {}: metric #{} was handed over after #{}", p, k, prev)));
+                            }
+                        }
+                    }
+                }
+                Ev::Exit { .. } => inside -= 1,
+                _ => {}
+            }
+        }
+        rep.obs("blocked_backlogs_checked_for_order_and_one_at_a_time", 1);
+        if let Some((rule, class, detail)) = bad {
+            rep.violation(Violation { property: "C08".into(), rule: rule.into(), class: class.into(), detail: format!("[blocked-sink {} released with {} metrics queued] {}", cfg.to_string(), ok_n, detail), replay_args: args.to_vec_with(&[("case-seed", cs.to_string()), ("cases", "1".into())]), trace: Json::Null });
+        }
+    }
     drop(q);
     let r2 = r.and_then(|_| await_log(&sh, |st| st.log.iter().any(|e| matches!(e, Ev::SinkDrop { .. })))).and_then(|_| await_no_library_thread());
     if let Err(st) = r2 {
